@@ -3,6 +3,7 @@ package props
 
 import (
 	"fmt"
+	"go/types"
 	"os"
 	"sort"
 
@@ -68,6 +69,24 @@ func (x *Ctx) Engine() *scan.Engine {
 		}
 		for _, n := range fpScannerNames {
 			if fn := x.W.SFP.Func(n); fn != nil {
+				e.Inline[fn] = true
+			}
+		}
+		// private helpers with scalar results (isSpace(b) bool, accumulateDigits(data, p, n) (uint64, int), …): what a
+		// scanner computes through them is part of the scanner, so E2 follows them like the named ones
+		for _, fn := range x.W.SrcFuncs() {
+			if !x.W.InLib(fn) || fn.Object() == nil || fn.Object().Exported() || fn.Signature.Recv() != nil || len(fn.Blocks) == 0 || fn.Parent() != nil {
+				continue
+			}
+			res := fn.Signature.Results()
+			scalar := res.Len() > 0
+			for i := 0; i < res.Len(); i++ {
+				b, ok := res.At(i).Type().Underlying().(*types.Basic)
+				if !ok || b.Info()&(types.IsInteger|types.IsBoolean) == 0 {
+					scalar = false
+				}
+			}
+			if scalar {
 				e.Inline[fn] = true
 			}
 		}
